@@ -3,6 +3,7 @@ CONSTANTS Urls <- UrlsC
           Cfgs <- OneCfg
           RebuildOnlyIfChanged = FALSE
           FirstOfBatch = FALSE
+          PullOnNull = TRUE
           IdentsAccumulate = TRUE
           ForgetIdentRecord = TRUE
           ConfigRebuilds = TRUE
